@@ -69,6 +69,27 @@ def _stretch(df, lo, hi):
     return out
 
 
+def pick_zone(job, rng):
+    """the baseline zone spec of a job: fixed by the plan (quick tier) or drawn, 30% from the special tzinfo kinds"""
+    if job.get("tz"):
+        return job["tz"]
+    if rng.random() < 0.3:
+        return rng.choice(c01lib.SPECIAL_ZONES)
+    return rng.choice(c01lib.ZONES)
+
+
+def tz_sets(spec, make):
+    """reporting sets in other spellings / implementations of the baseline zone, an alias and a different zone:
+    the fitted model (tzinfo object) and the reloaded one (string) must decide alike.  make(tzinfo) -> data object"""
+    return [("tz: %s (%s)" % (label, v), (lambda v=v: make(c01lib.tz_of(v)))) for label, v in c01lib.tz_variants(spec)]
+
+
+def _reindex(obj, tz):
+    out = obj.copy()
+    out.index = out.index.tz_convert(tz)
+    return out
+
+
 # ----------------------------------------------------------------------------------------------------- daily / billing
 
 def daily_state_of(m, native):
@@ -94,7 +115,8 @@ def job_daily(job):
     from opendsm.eemeter import DailyModel
     rng = random.Random(job["seed"])
     base, st = DAILY_PROFILES[job["profile"]]
-    tz = rng.choice(c01lib.ZONES)
+    spec = pick_zone(job, rng)
+    tz = c01lib.tz_of(spec)
     noise = rng.choice([0.03, 0.03, 0.6])              # 0.6: a poor fit -> CVRMSE disqualification stored in the model
     weekend = rng.choice([1.0, 1.4])
     df = fitlib.daily_frame(rng, tz=tz, noise=noise, weekend=weekend, bh=rng.choice([1.2, 0.0, 0.6]), bc=rng.choice([0.8, 0.0]))
@@ -112,17 +134,19 @@ def job_daily(job):
     sets = [("continuation", lambda: fitlib.daily_reporting(rep.copy())),
             ("outside-range", lambda: fitlib.daily_reporting(_stretch(rep, -45.0, 135.0))),
             ("baseline", lambda: fitlib.daily_baseline(df.copy()))]
+    sets += tz_sets(spec, lambda z: fitlib.daily_reporting(_reindex(rep.iloc[:40], z)))
     state = daily_state_of(m, True)
     obs, js, m2, js2 = c01lib.roundtrip_obs(DailyModel, m, sets, {"ignore_disqualification": True})
     return {"state": state, "js": js, "obs": obs, "shapes": [s[1]["model_type"] for s in state["subs"]],
-            "keys": [s[0] for s in state["subs"]], "developer_mode": bool(m.settings.developer_mode), "base": base}
+            "keys": [s[0] for s in state["subs"]], "developer_mode": bool(m.settings.developer_mode), "base": base, "zone": spec}
 
 
 def job_billing(job):
     from opendsm.eemeter import BillingModel
     rng = random.Random(job["seed"])
     st = BILLING_PROFILES[job["profile"]]
-    tz = rng.choice(c01lib.ZONES)
+    spec = pick_zone(job, rng)
+    tz = c01lib.tz_of(spec)
     meter, temp = fitlib.billing_series(rng, tz=tz, noise=rng.choice([0.03, 0.5]))
     rmeter, rtemp = fitlib.billing_series(rng, tz=tz, start="2023-01-10", nperiods=6)
     with quiet():
@@ -130,6 +154,7 @@ def job_billing(job):
     sets = [("continuation", lambda: fitlib.billing_reporting(rmeter, rtemp)),
             ("outside-range", lambda: fitlib.billing_reporting(rmeter, pd.Series(np.linspace(-45.0, 135.0, len(rtemp)), index=rtemp.index))),
             ("baseline", lambda: fitlib.billing_baseline(meter, temp))]
+    sets += tz_sets(spec, lambda z: fitlib.billing_reporting(_reindex(rmeter, z), _reindex(rtemp, z)))
     state = daily_state_of(m, True)
     obs, js, m2, js2 = c01lib.roundtrip_obs(BillingModel, m, sets, {"ignore_disqualification": True})
     # aggregated predictions go through the same reloaded parameters: one more observation
@@ -142,7 +167,7 @@ def job_billing(job):
     except Exception as e:
         obs.setdefault("notes", []).append("monthly aggregation: %s" % type(e).__name__)
     return {"state": state, "js": js, "obs": obs, "shapes": [s[1]["model_type"] for s in state["subs"]],
-            "keys": [s[0] for s in state["subs"]], "developer_mode": bool(m.settings.developer_mode), "base": "billing"}
+            "keys": [s[0] for s in state["subs"]], "developer_mode": bool(m.settings.developer_mode), "base": "billing", "zone": spec}
 
 
 # ----------------------------------------------------------------------------------------------------- hourly
@@ -178,7 +203,8 @@ def job_hourly(job):
     from opendsm.eemeter import HourlyModel
     rng = random.Random(job["seed"])
     st, solar = HOURLY_PROFILES[job["profile"]]
-    tz = rng.choice(c01lib.ZONES)
+    spec = pick_zone(job, rng)
+    tz = c01lib.tz_of(spec)
     noise = rng.choice([0.05, 0.05, 1.5])                # 1.5: poor fit -> disqualification
     hf = fitlib.hourly_frame(rng, tz=tz, ndays=rng.choice([365, 200]), ghi=True, noise=noise)
     rf = fitlib.hourly_frame(rng, tz=tz, start="2023-01-15", ndays=rng.choice([30, 75]), ghi=True)
@@ -203,9 +229,10 @@ def job_hourly(job):
     sets = [("continuation", lambda: fitlib.hourly_reporting(rf.copy())),
             ("outside-range", lambda: fitlib.hourly_reporting(_stretch(rf, -45.0, 135.0))),
             ("baseline", lambda: fitlib.hourly_baseline(hf.copy()))]
+    sets += tz_sets(spec, lambda z: fitlib.hourly_reporting(_reindex(rf.iloc[:24 * 8], z)))
     obs, js, m2, js2 = c01lib.roundtrip_obs(HourlyModel, m, sets, {"ignore_disqualification": True}, snapshot=hourly_state_of)
     state2 = obs.pop("_state2", None)
-    return {"state": state, "state2": state2, "js": js, "js2": js2, "obs": obs, "solar": bool(solar), "n_coef": sum(len(r) for r in state["coef"]),
+    return {"state": state, "state2": state2, "js": js, "js2": js2, "obs": obs, "zone": spec, "solar": bool(solar), "n_coef": sum(len(r) for r in state["coef"]),
             "feature_order": [list(state["settings"].get("train_features") or []), list(state["ts_features"])]}
 
 
@@ -259,7 +286,7 @@ CALTRACK_PROFILES = {
 def job_caltrack(job):
     from opendsm.eemeter.models.hourly_caltrack.wrapper import HourlyModel as CTModel
     rng = random.Random(job["seed"])
-    tz = rng.choice(c01lib.ZONES)
+    tz = rng.choice(c01lib.ZONES)          # the CalTRACK wrapper stores no timezone and has no guard
     kind, rstart = CALTRACK_PROFILES[job["profile"]]
     hf = fitlib.hourly_frame(rng, tz=tz, ndays=365)
     if kind == "4 weeks":
